@@ -235,7 +235,10 @@ SPECS["C16"] = dict(
                 files=dict(UPSTREAM_COMMON, **{"harness/upstream/zz_verif_c17_test.go": "internal/upstream/zz_verif_c17_test.go"}),
                 params={"quick": {"SCHEMES": ",udp"}, "thorough": {"SCHEMES": ",udp"}}, budget={"quick": 60, "thorough": 60}),
            dict(name="real-udp", pkg="internal/upstream", run="TestVerifC16Real", go="go", engines=("report", "refdns", "env", "sched", "choice"), shards=1, gomaxprocs=4,
-                files={"harness/upstream/zz_verif_c16real_test.go": "internal/upstream/zz_verif_c16real_test.go"}, budget={"quick": 120, "thorough": 120})],
+                files={"harness/upstream/zz_verif_c16real_test.go": "internal/upstream/zz_verif_c16real_test.go"}, budget={"quick": 120, "thorough": 120}),
+           dict(name="real-history", pkg="internal/upstream", run="TestVerifC16History", go="go", engines=("report", "refdns", "env", "sched", "choice"), shards=1, gomaxprocs=4,
+                files={"harness/upstream/zz_verif_c16hist_test.go": "internal/upstream/zz_verif_c16hist_test.go"},
+                params={"quick": {"LATER": 9000, "DIALFAILS": 300}, "thorough": {"LATER": 140000, "DIALFAILS": 3000}}, budget={"quick": 200, "thorough": 600})],
 )
 
 
@@ -468,6 +471,7 @@ def _c20_parts():
             ("C06", "reuse", {"DEPTH": 6, "FAULTS": 2}, {"DEPTH": 8, "FAULTS": 3}),
             ("C14", "stream", {"FAULTS": 2}, {"FAULTS": 4}),
             ("C14", "doq-doh", {"DEPTH": 5, "FAULTS": 2}, {"DEPTH": 6, "FAULTS": 3}),
+            ("C16", "fallback", {}, {}),
             ("C18", "transports", {"DEPTH": 4, "FAULTS": 2}, {"DEPTH": 6, "FAULTS": 3}),
             ("C13", "framing", {"MAXK": 2, "COARSEK": 2, "FULLSEG": 0, "SHARDDEPTH": 4}, {"MAXK": 2, "COARSEK": 3, "FULLSEG": 0, "SHARDDEPTH": 4}),
             ("C19", "prefetch", {"DEPTH": 4, "FAULTS": 2}, {"DEPTH": 6, "FAULTS": 3}),
@@ -513,6 +517,9 @@ SPECS["C04"]["parts"].append(dict(name="upstream-replies", pkg="internal/upstrea
                                                                   "harness/transport/zz_verif_c01up_test.go": "internal/upstream/transport/zz_verif_c01up_test.go"}),
                                   params={"quick": {"PROGLEN": 2}, "thorough": {"PROGLEN": 3}}, budget={"quick": 60, "thorough": 900}))
 SPECS["C08"]["parts"].append(_mem_e2("C08"))
+SPECS["C19"]["parts"].append(dict(name="redis-slow", pkg="app/router", run="TestVerifC19Redis", go="go", engines=("report", "refdns", "env", "sched", "choice"), shards=1, gomaxprocs=4,
+                                  files={"harness/router/zz_verif_redis_test.go": "app/router/zz_verif_redis_test.go", "harness/router/zz_verif_c19redis_test.go": "app/router/zz_verif_c19redis_test.go"},
+                                  budget={"quick": 120, "thorough": 120}))
 for _pid in ("C07", "C08"):
     SPECS[_pid]["parts"].append(dict(name="redis", pkg="app/router", run="TestVerifRedis", go="go", engines=("report", "refdns", "env", "sched", "choice"), shards=1, gomaxprocs=4,
                                      files={"harness/router/zz_verif_redis_test.go": "app/router/zz_verif_redis_test.go"}, budget={"quick": 120, "thorough": 120}))
